@@ -6,6 +6,9 @@
 // (lexer.Tokenize / lexer.TokenizeTemplate, the latter also behind a "<?php " opener) and each
 // top-level token is compared with the source text itself (span.go).
 //
+// Multi-line lexeme family (multiline.go): every lexeme kind that can contain a newline, in the script,
+// template and HTML lexers, with every body of <= 3 / <= 4 atoms, span oracle + planted call after it.
+//
 // Location clause: planted-fault programs = fault kind x fault line position x preceding filler
 // kind x mode, run through runner.Run; the line of the captured parse / uncaught control must be
 // the planted line (location.go).
@@ -449,7 +452,7 @@ func main() {
 	if len(outcomes) < 3 || tokens < 1000 || programs < 100 {
 		c.HarnessError("vacuous: outcomes=%d tokens=%d programs=%d", len(outcomes), tokens, programs)
 	}
-	c.Finish(inputs+programs, lexes+programs, inputs+programs, fmt.Sprintf("span clause: %d corpus files + their token-boundary prefixes + all strings of <= 3 tokens over the whole alphabet (24 position-stress + 9 keyword-case + 10 number-spelling symbols) and of <= %d tokens over its 24 position-stress symbols (x2 joiners x4 lexing set-ups), every top-level token compared with the source text; location clause: fault kind x position x filler kind x mode", len(files), maxLen))
+	c.Finish(inputs+programs, lexes+programs, inputs+programs, fmt.Sprintf("span clause: %d corpus files + their token-boundary prefixes + all strings of <= 3 tokens over the whole alphabet (24 position-stress + 9 keyword-case + 10 number-spelling symbols) and of <= %d tokens over its 24 position-stress symbols (x2 joiners x4 lexing set-ups), every top-level token compared with the source text; multi-line lexeme family: every lexeme kind that can contain a newline (plain, template and HtmlLexer) x every body of <= %d atoms x pres x followers, same span oracle, and an undefined-function call planted after each lexeme with a body of <= %d atoms; location clause: fault kind x position x filler kind x mode", len(files), maxLen, mlSpanLen, mlLocLen))
 }
 
 func replay(c *ev.Check) {
